@@ -186,7 +186,7 @@ func (l *Lexer) scanToken() error {
 		}
 
 	// Whitespace
-	case ' ', '\r', '\t':
+	case ' ', '\r', '\t', '\v', '\f', 0x85, 0x200E, 0x200F, 0x2028, 0x2029:
 		// Ignore whitespace
 	case '\n':
 		l.line++
